@@ -72,6 +72,8 @@ CtlC == {CtlT("size", Ref("uint"), Lit(I(n))) : n \in {0, 1, 2, 4, 8, 16}} \cup 
         \cup {CtlT("size", Ref("tstr"), Rng(I(1), I(2), incl)) : incl \in BOOLEAN}
         \cup {CtlT(op, Ref(t), Lit(I(n))) : op \in {"lt","le","gt","ge","eq","ne"}, t \in {"int","uint","nint"}, n \in {-2, 0, 2}}
         \cup {CtlT(op, Ref("tstr"), Lit(Tx(A))) : op \in {"eq","ne"}}
+        \cup {CtlT("cat", Lit(Tx(a)), Lit(Tx(b))) : a \in {<<>>, A}, b \in {<<>>, B, <<233>>}}
+        \cup {CtlT("plus", Lit(I(a)), Lit(I(b))) : a \in {0, 1, 2, -1}, b \in {0, 1, -2, -3, 255}}
         \cup {CtlT(op, Ref("int"), Ref("uint")) : op \in {"and","within"}} \cup {CtlT("and", Rng(I(0), I(3), TRUE), Rng(I(2), I(5), TRUE))}
 T1C == {Ref(n) : n \in PreC} \cup {Lit(I(n)) : n \in {0, 1, -1, 256}} \cup {Lit(Tx(A)), Lit(Tx(<<>>)), Lit(F15)} \cup RangesC \cup CtlC
        \cup {Rng(F15, F25, incl) : incl \in BOOLEAN}
@@ -95,6 +97,10 @@ SchemasD ==
            GRule("g1", Ent(1,1,Bare("b", B),IntT)), [GRule("g1", Ent(1,1,Bare("b", B),TstrT)) EXCEPT !.op = "//="]>> }
   \cup { <<Rule("root", Ty(<<MapT(<<<<[k |-> "name", lo |-> o[1], hi |-> o[2], n |-> "g1", args |-> <<>>], Ent(1,1,Bare("b", B),IntT)>>>>)>>)),
            GRule("g1", Ent(1,1,Bare("a", A),IntT))>> : o \in {<<0,1>>, <<1,1>>} }
+  \cup { <<Rule("root", Ty(<<CtlT("plus", Ref("c1"), Lit(I(1)))>>)), Rule("c1", Ty(<<Lit(I(0))>>))>>,
+         <<Rule("root", Ty(<<CtlT("plus", Lit(I(3)), Ref("c1"))>>)), Rule("c1", Ty(<<Lit(I(-2))>>))>>,
+         <<Rule("root", Ty(<<CtlT("cat", Ref("c1"), Lit(Tx(<<>>)))>>)), Rule("c1", Ty(<<Lit(Tx(A))>>))>>,
+         <<Rule("root", Ty(<<ArrT(<<<<Ent(1,1,NoKey,Ty(<<CtlT("cat", Lit(Tx(<<>>)), Ref("c1"))>>)), Ent(0,1,NoKey,Ty(<<CtlT("plus", Lit(I(0)), Lit(I(1)))>>))>>>>)>>)), Rule("c1", Ty(<<Lit(Tx(A))>>))>> }
   \cup { <<Rule("root", Ty(<<Ref("a")>>)), Rule("a", Ty(<<Ref("b")>>)), Rule("b", Ty(<<Ref("a")>>))>>,
          <<Rule("root", Ty(<<Ref("a")>>)), Rule("a", Ty(<<Ref("b"), Ref("int")>>)), Rule("b", Ty(<<Ref("a")>>))>>,
          <<Rule("root", Ty(<<ArrT(<<<<Ent(0,-1,NoKey,Ty(<<Ref("root")>>))>>>>)>>))>>,
